@@ -10,11 +10,11 @@ PROPERTY_MODULES = {
     "C11": ["adev"],
     "C15": ["adev"],
     "C13": ["distributions", "pjax_vmap"],
-    "C17": ["vi", "choicemap", "core_gfi"],
+    "C17": ["vi", "choicemap", "core_gfi", "adev"],
     "C10": ["smc", "core_gfi", "combinators", "lemmas"],
     "C12": ["smc"],
     "C18": ["mcmc", "state"],
-    "C09": ["mcmc", "core_gfi", "combinators", "choicemap"],
+    "C09": ["mcmc", "core_gfi", "combinators", "choicemap", "selection"],
     "C06": ["seed"],
     "C07": ["seed"],
     "C01": ["core_gfi", "combinators", "lemmas", "choicemap"],
